@@ -36,6 +36,7 @@ def handlers : List (String × (Case → String)) := [
   ("reusemulti", Drivers.Chain.runReuseMulti),
   ("cancel", Drivers.Cancel.run),
   ("overlap", Drivers.Overlap.run),
+  ("overlap2", Drivers.Overlap.run2),
   ("subjoverlap", Drivers.Overlap.runSubj),
   ("leak", Drivers.Cancel.runLeak),
   ("timed", Drivers.Timed.run),
